@@ -210,4 +210,19 @@ theorem subset_parent {t : Table} (hnd : (ids t).Nodup) (keep : Int → Bool) {m
 theorem labelsOKB_subset (t : Table) (keep : Int → Bool) : labelsOKB (subset t keep) = true :=
   labelsOKB_classify _
 
+theorem cut_some {t : Table} {c : Int} {d p : Table} (h : cut t c = some (d, p)) :
+    d = subset t (fun i => (distalSet t c).contains i) ∧
+    p = subset t (fun i => !(distalSet t c).contains i || i == c) ∧
+    ∃ nc, find? t c = some nc ∧ ¬ nc.parent < 0 := by
+  unfold cut at h
+  cases hf : find? t c with
+  | none => rw [hf] at h; simp at h
+  | some nc =>
+    rw [hf] at h; simp only at h
+    split at h
+    · simp at h
+    · rename_i hp
+      simp only [Option.some.injEq, Prod.mk.injEq] at h
+      exact ⟨h.1.symm, h.2.symm, nc, rfl, hp⟩
+
 end Navis.Forest
